@@ -443,7 +443,7 @@ def _is_access_path(v):
         return _is_access_path(v.operand)
     if isinstance(v, ast.Constant) and isinstance(v.value, int):
         return True
-    while isinstance(v, ast.Attribute):
+    while isinstance(v, ast.Attribute) or (isinstance(v, ast.Subscript) and isinstance(v.slice, ast.Constant)):
         v = v.value
     return isinstance(v, ast.Name)
 
